@@ -11,10 +11,11 @@ update = "--update" in sys.argv
 items = {}
 for d in sorted(glob.glob(os.path.join(VERIF, "benign", "*", "patch.diff"))):
     items[os.path.basename(os.path.dirname(d))] = d
-for d in sorted(glob.glob("/tmp/out3_C*/change_*.diff")):
-    pid = re.search(r"out3_(C\d\d)", d).group(1)
-    i = re.search(r"change_(\d+)", d).group(1)
-    items.setdefault(f"{pid}-b{i}", d)
+for rnd, tagc in (("3", "b"), ("5", "c")):
+    for d in sorted(glob.glob(f"/tmp/out{rnd}_C*/change_*.diff")):
+        pid = re.search(r"out\d_(C\d\d)", d).group(1)
+        i = re.search(r"change_(\d+)", d).group(1)
+        items.setdefault(f"{pid}-{tagc}{i}", d)
 fa_total = und_total = 0
 for name, diff in sorted(items.items()):
     if not pat.search(name):
